@@ -1,7 +1,7 @@
 SPECIFICATION SimSpec
 CONSTANTS CntChoices <- CntExact
           N = 4  EPS = 4  NF = 1  ROOT16 = FALSE  RS = 2  SPC = 2  Names = {"a", "b", "c"}  MaxLen = 1  MaxOpen = 1  K = 14
-          BugF1 = FALSE BugF2 = FALSE BugF3 = FALSE BugF9 = FALSE BugF18 = FALSE BugF15 = FALSE HintChoices = {3}
+          BugF1 = FALSE BugF2 = FALSE BugF3 = FALSE BugF9 = FALSE BugF18 = FALSE BugF15 = FALSE InfoModel = TRUE HintChoices = {3}
 CONSTRAINT Bound
 INVARIANTS Emit Emit2 CrashSafe WellFormed SpaceExact
 CHECK_DEADLOCK FALSE
